@@ -225,11 +225,19 @@ func (m *Machine) ProcessPacket(out, packet []byte) ([]byte, *Result, error) {
 	// noise returns (cs1, cs2) where cs1 is the initiator->responder cipher.
 	// For 3-message patterns where a responder finishes by reading the final
 	// message, this ordering would be wrong; revisit when XX/pqIX lands.
+	// Remember the handshake hash so we can tell if a failed read left the noise state untouched.
+	hashBefore := bytes.Clone(m.hs.ChannelBinding())
+
 	msg, eKey, dKey, err := m.hs.ReadMessage(nil, packet[header.Len:])
 	if err != nil {
 		// Noise ReadMessage failed. The noise library checkpoints and rolls back
-		// on failure, so the Machine is still alive. The caller can retry with
-		// a different packet.
+		// on an authentication failure, so the Machine is still alive and the caller
+		// can retry with a different packet. It does not roll back on every error
+		// though (a message that ends after the ephemeral key, a DH failure), and
+		// with the ephemeral already mixed in the genuine message can never be read.
+		if !bytes.Equal(hashBefore, m.hs.ChannelBinding()) {
+			m.failed = true
+		}
 		return nil, nil, fmt.Errorf("noise ReadMessage: %w", err)
 	}
 
